@@ -336,6 +336,33 @@ def work(payload, skip, report):
     return acc
 
 
+def replay(case):
+    """Re-executes one recorded schedule (the choice list) on a fresh copy of the initial condition."""
+    install()
+    cond = [c for c in CONDITIONS if c["name"] == case["condition"]][0]
+    tmpl = scratch_dir("c20r")
+    out = []
+    try:
+        make_template(tmpl, cond)
+        s1 = run_one(tmpl, [], 1)
+        expected = s1.results[0]
+        s = run_one(tmpl, case["schedule"], case["workers"])
+        if s.deadlock:
+            out.append({"oracle": "no_deadlock", "observed": "deadlock", "expected": "progress"})
+        for i in range(case["workers"]):
+            if s.errors[i] is not None:
+                kind = "database_locked_failure" if "locked" in s.errors[i] or "busy" in s.errors[i] else "worker_raises"
+                out.append({"oracle": kind, "observed": s.errors[i], "expected": "no exception"})
+            elif s.results[i] != expected:
+                out.append({"oracle": "same_results_as_single_worker", "observed": s.results[i], "expected": expected})
+        before = [r for r in s1.final_table if r[0] != "Module:_sandbox_phase1"] if not cond["bootstrap"] else s1.final_table
+        if s.final_table not in (before, sorted(before + [("Module:_sandbox_phase1", 828, "", None, "Scribunto")])):
+            out.append({"oracle": "stored_pages_unchanged", "observed": str(s.final_table)[:200], "expected": "unchanged"})
+    finally:
+        shutil.rmtree(tmpl, ignore_errors=True)
+    return out
+
+
 def free_running(cond, nproc, rounds):
     """Real processes released together (what a cooperative scheduler cannot see); evidence only."""
     import multiprocessing as mp
